@@ -370,6 +370,19 @@ where
 
     /// Accepts a welcome
     pub fn accept_welcome(&self, welcome: &welcome_types::Welcome) -> Result<(), Error> {
+        // An invitation is accepted once. Accepting it again - a repeated tap, or the old
+        // welcome of a group the user has since been removed from - would replace the group's
+        // current MLS state with the state at the time of the invitation: the member would be
+        // set back to the epoch it joined in, or revive a membership that has ended.
+        if let Some(stored) = self
+            .storage()
+            .find_welcome_by_event_id(&welcome.id)
+            .map_err(|e| Error::Welcome(e.to_string()))?
+            && stored.state == welcome_types::WelcomeState::Accepted
+        {
+            return Ok(());
+        }
+
         let welcome_preview = self.preview_welcome(&welcome.wrapper_event_id, &welcome.event)?;
         // The group record normally exists since process_welcome. If the storage layer refused
         // it then (the welcome is stored first), store it now, before any MLS state is written:
